@@ -17,16 +17,26 @@ void *nondet_ptr(void);
 
 /* A canary is an assertion that MUST be refuted: it shows that the code after the
    call under proof is reachable, i.e. that requires/assume are not contradictory. */
+/* Finding a model for a canary is a SAT search through the whole function and costs far more
+   than the (UNSAT) proof itself, so each group is built twice: the proof build has no canaries;
+   the canary build (VERIF_CANARY_RUN) may add harness assumptions that shrink the input
+   (reachability under stronger assumptions implies reachability under the proof's). */
+#ifdef VERIF_CANARY_RUN
 #define CANARY(name) __CPROVER_assert(0, "CANARY " name)
+#define CANARY_ASSUME(c) __CPROVER_assume(c)
+#else
+#define CANARY(name)
+#define CANARY_ASSUME(c)
+#endif
 
 #define PO(p) ((long long)__CPROVER_POINTER_OFFSET(p))
 #define OS(p) ((long long)__CPROVER_OBJECT_SIZE(p))
 
 /* Every celt_assert of the hardened build becomes the obligation "no internal abort". */
 #ifndef VERIF_FATAL_NO_OBLIGATION
-#define VERIF_FATAL_BODY { __CPROVER_assert(0, "celt_assert: no internal abort (celt_fatal unreachable)"); __CPROVER_assume(0); while(1){} }
+#define VERIF_FATAL_BODY { __CPROVER_assert(0, "celt_assert: no internal abort (celt_fatal unreachable)"); __CPROVER_assume(0); }
 #else
-#define VERIF_FATAL_BODY { __CPROVER_assume(0); while(1){} }
+#define VERIF_FATAL_BODY { __CPROVER_assume(0); }
 #endif
 #define VERIF_DEFINE_CELT_FATAL \
   void celt_fatal(const char *str, const char *file, int line) VERIF_FATAL_BODY
